@@ -63,7 +63,7 @@ def gen(ctx):
             if h[0]["a"]["be"] == "mmap" and n % 3 == 0:
                 extra.append([{"op": "init", "a": dict(h[0]["a"], be="mmapfile")}] + [{"op": a["op"], "a": a["a"]} for a in h[1:]])
         prog += [x for h in extra for x in h]
-        events = run_harness("guest", prog, os.path.join(WORK, "gen_guest_%s.ev.ndjson" % ctx.pid), ctx=ctx)
+        events = adjust_shrunk(run_harness("guest", prog, os.path.join(WORK, "gen_guest_%s.ev.ndjson" % ctx.pid), ctx=ctx))
         if len(events) != len(prog) and ctx.violations == 0:
             raise ToolError("harness returned %d events for %d program lines" % (len(events), len(prog)))
         judge_chunks(ctx, "gent_guest_" + ctx.pid, events, 120000)
@@ -97,7 +97,9 @@ def rnd_layout(rnd, be):
                 a += sz + g
         else:
             # pack downwards from the top of the address space
-            end = U64 if be == "custom" and rnd.random() < 0.6 else U64 - rnd.choice([1, 1, 2, 9])
+            # (a region ending exactly at 2^64 is refused by GuestRegionMmap::new; the executor then builds it one byte shorter and
+            # says so - see adjust_shrunk - but a tree that accepts it gets its lookups exercised on that layout)
+            end = U64 if (be == "custom" and rnd.random() < 0.6) or (be != "custom" and sizes[0] >= 2 and rnd.random() < 0.25) else U64 - rnd.choice([1, 1, 2, 9])
             tmp = []
             for sz, g in zip(sizes, gaps):
                 tmp.append([end - sz, sz])
@@ -116,6 +118,10 @@ def rnd_history(rnd, nops, zst, xen=False):
         p = 4096
     lay = rnd_layout(rnd, be)
     prog = [{"op": "init", "a": {"be": be, "p": p, "lay": lay, "via": rnd.choice(["direct", "insert", "remove", "remove"])}}]
+    if be != "custom" and lay and lay[-1][0] + lay[-1][1] < U64 and rnd.random() < 0.2:
+        # the convenience constructor from_ranges_with_files (its bitmap has the host page size)
+        prog[0]["a"]["via"] = "ranges"
+        prog[0]["a"]["p"] = p = 4096
     if be == "custom":
         # a foreign backend stores (and iterates) its regions in any order; the provided methods must not care
         prog[0]["a"]["perm"] = rnd.choice(["id", "rev", "rot"])
@@ -233,6 +239,17 @@ def rnd_history(rnd, nops, zst, xen=False):
     return prog
 
 
+def adjust_shrunk(events):
+    """The executor reports when the crate refused a region ending exactly at 2^64 and it built the region one byte shorter:
+    the layout the trace is judged against is the one that exists."""
+    for e in events:
+        if e["op"] == "init" and isinstance(e.get("r"), dict) and e["r"].get("shrunk"):
+            lay = e["a"]["lay"]
+            i = max(range(len(lay)), key=lambda k: lay[k][0])
+            lay[i] = [lay[i][0], lay[i][1] - 1]
+    return events
+
+
 def traces(ctx, zst=None, release=False):
     if zst is None:
         zst = ctx.pid in ("C18", "C07")
@@ -240,7 +257,7 @@ def traces(ctx, zst=None, release=False):
     prog = []
     for _ in range(nhist):
         prog += rnd_history(ctx.rnd, nops, zst)
-    events = run_harness("guest", prog, os.path.join(WORK, "tr_guest_%s.ev.ndjson" % ctx.pid), ctx=ctx, release=release)
+    events = adjust_shrunk(run_harness("guest", prog, os.path.join(WORK, "tr_guest_%s.ev.ndjson" % ctx.pid), ctx=ctx, release=release))
     judge_chunks(ctx, "tr_guest_" + ctx.pid + ("r" if release else ""), events)
     ctx.cov["traces_validated_against_impl"] += nhist
     ctx.sample({"kind": "recorded history validated by Trace_GuestMem", "events":
@@ -253,7 +270,7 @@ def traces_xen(ctx):
     prog = []
     for _ in range(nhist):
         prog += rnd_history(ctx.rnd, nops, False, xen=True)
-    events = run_harness("guest", prog, os.path.join(WORK, "tr_guestx_%s.ev.ndjson" % ctx.pid), pkg="vmh-xen", ctx=ctx)
+    events = adjust_shrunk(run_harness("guest", prog, os.path.join(WORK, "tr_guestx_%s.ev.ndjson" % ctx.pid), pkg="vmh-xen", ctx=ctx))
     judge_chunks(ctx, "tr_guestx_" + ctx.pid, events)
     ctx.cov["traces_validated_against_impl"] += nhist
     ctx.cov["xen_unix_histories"] = nhist
@@ -326,7 +343,7 @@ def run_c14(ctx):
         edges = [e for e in edges if e[0]["act"]["op"].startswith(("s_", "rs_"))]
         hists, covered = edges_to_histories(inits, edges, chunk=400)
         prog = [{"op": a["op"], "a": a["a"]} for h in hists for a in h]
-        events = run_harness("guest", prog, os.path.join(WORK, "gen_guest_c14.ev.ndjson"), ctx=ctx)
+        events = adjust_shrunk(run_harness("guest", prog, os.path.join(WORK, "gen_guest_c14.ev.ndjson"), ctx=ctx))
         judge_chunks(ctx, "gent_guest_c14", events, 120000)
         ctx.cov["gen_tests_replayed"] += covered
         ctx.cov["traces_validated_against_impl"] += len(hists)
@@ -339,7 +356,7 @@ def run_c14(ctx):
     prog = []
     for _ in range(nhist):
         prog += rnd_history_c14(ctx.rnd, nops)
-    events = run_harness("guest", prog, os.path.join(WORK, "tr_guest_c14.ev.ndjson"), ctx=ctx)
+    events = adjust_shrunk(run_harness("guest", prog, os.path.join(WORK, "tr_guest_c14.ev.ndjson"), ctx=ctx))
     judge_chunks(ctx, "tr_guest_c14", events)
     ctx.cov["traces_validated_against_impl"] += nhist
     ctx.sample({"kind": "recorded scripted-stream history validated by Trace_GuestMem", "events":
